@@ -531,7 +531,7 @@ def min_weight_bipartite_matching(
         if isinstance(edge_type, bool):
             raise ValueError("Null edges are only supported with `int` or `float` edge types, not `bool`. Bipartite graphs with `bool` edge weights must be complete.")
         null_edge_value: Optional[EdgeType] = max(
-            sum(weights[row][col] for row in range(len(from_nodes)) if weights[row][col] is not None)
+            sum(abs(weights[row][col]) for row in range(len(from_nodes)) if weights[row][col] is not None)
             for col in range(len(to_nodes))
         ) + 1
         assert null_edge_value > max_edge
